@@ -694,10 +694,12 @@ pub fn lay_toks(kind: u64, lay: &[(u64, u64)]) -> Vec<Tok> {
 
 fn gen(rng: &mut Rng, tier: Tier, emit: &mut dyn FnMut(Vec<Tok>)) {
     let u = universe();
-    let nlay = if tier == Tier::Quick { 60 } else { 1500 };
+    // thorough: 1000 layouts for each of GuestMemoryMmap / MockMem and 150 for each flavour (~9M cases per build)
+    let nlay = if tier == Tier::Quick { 60 } else { 1000 };
+    let nflav = if tier == Tier::Quick { 20 } else { 150 };
     let big = [0u64, 1, 2, 3, 5, 8, 17, 47, 48, 49, 1 << 32, (1 << 63) - 1, 1 << 63, TOP - 24, TOP - 1, TOP];
     for kind in [0u64, 1, 3, 4, 5] {
-        for li in 0..(if kind >= 3 { nlay / 3 } else { nlay }) {
+        for li in 0..(if kind >= 3 { nflav } else { nlay }) {
             let maxsz = if li % 3 == 0 { 3 } else { 8 };
             // the flavour collections are generic implementors like MockMem: any order, may end at 2^64
             let lay = small_layout(rng, if kind >= 3 { 1 } else { kind }, maxsz, 5);
